@@ -854,7 +854,37 @@ class srange:
         return bool((SInt.of(x) >= self.start) & (SInt.of(x) < self.stop))
 
 
-def int_shim(x=0, *a):
+class _ClassShim:
+    """stands for a builtin class under its usual name: callable like the class, compares equal to it (`type(x) == int`), and carries the
+    class attributes code reaches through the name (int.from_bytes, int.__or__, float.fromhex)"""
+
+    def __init__(self, real, call, **attrs):
+        self._real = real
+        self._call = call
+        self.__name__ = real.__name__
+        for k, v in attrs.items():
+            setattr(self, k, v)
+
+    def __call__(self, *a, **k):
+        return self._call(*a, **k)
+
+    def __eq__(self, o):
+        return o is self or o is self._real
+
+    def __ne__(self, o):
+        return not self.__eq__(o)
+
+    def __hash__(self):
+        return hash(self._real)
+
+    def __instancecheck__(self, obj):
+        return isinstance_shim(obj, self._real)
+
+    def __repr__(self):
+        return '<shim for %s>' % self._real.__name__
+
+
+def _int_call(x=0, *a):
     if isinstance(x, SInt):
         return x
     if isinstance(x, SReal):
@@ -865,14 +895,13 @@ def int_shim(x=0, *a):
 
 
 import operator as _op
-for _n in ('__or__', '__and__', '__xor__', '__add__', '__sub__', '__mul__', '__lt__', '__le__', '__eq__', '__neg__'):
-    setattr(int_shim, _n, getattr(_op, _n))          # int.__or__ used as a function (functools.reduce(int.__or__, ...))
-int_shim.bit_length = lambda x: x.bit_length()
-int_shim.from_bytes = lambda b, byteorder='big', signed=False: (
-    _from_bytes(list(SBytes(b).b), signed, byteorder == 'big') if isinstance(b, SBytes) else int.from_bytes(b, byteorder, signed=signed))
+int_shim = _ClassShim(int, _int_call, bit_length=lambda x: x.bit_length(),
+                      from_bytes=lambda b, byteorder='big', signed=False: (
+                          _from_bytes(list(SBytes(b).b), signed, byteorder == 'big') if isinstance(b, SBytes) else int.from_bytes(b, byteorder, signed=signed)),
+                      **{n: getattr(_op, n) for n in ('__or__', '__and__', '__xor__', '__add__', '__sub__', '__mul__', '__lt__', '__le__', '__neg__')})
 
 
-def float_shim(x=0.0):
+def _float_call(x=0.0):
     if isinstance(x, SReal):
         return x
     if isinstance(x, SInt):
@@ -880,7 +909,7 @@ def float_shim(x=0.0):
     return float(x)
 
 
-float_shim.fromhex = float.fromhex
+float_shim = _ClassShim(float, _float_call, fromhex=float.fromhex)
 
 
 def round_shim(x, n=None):
